@@ -1,4 +1,5 @@
 import Check.C17
+import Check.C06
 /-! upfcheck: `upfcheck <property> <trace>` replays every case of the trace through the Lean model
 and the property oracle. Prints one line per problem (first 25 of each kind) and a summary. -/
 open Check
@@ -6,6 +7,7 @@ open Check
 def checker (prop : String) : Option (Nat → String → Verdict) :=
   match prop with
   | "C17" => some C17.check
+  | "C06" => some C06.check
   | _ => none
 
 partial def loop (h : IO.FS.Stream) (f : Nat → String → Verdict) (n ok mm orc bad : Nat) : IO (Nat × Nat × Nat × Nat × Nat) := do
